@@ -267,7 +267,36 @@ func TestC16(t *testing.T) {
 		}
 		return rapid.Uint64().Draw(rt, label)
 	}
+	ho := faultHistOpt()
+	ho.Rotations = 2
 	rapidCheck(t, func(rt *rapid.T) {
+		if rapid.IntRange(0, 29).Draw(rt, "part_e2e") == 0 {
+			// end to end: the announced algorithm is the one of the LATEST format description of THIS attempt,
+			// also when the setting changes at a rotation and when an earlier attempt saw another one
+			c := &FaultCase{H: gen.History(rt, ho)}
+			e := E2ECase{H: c.H}
+			l, start, su, err := e.layout()
+			if err != nil {
+				rt.Skip(err.Error())
+			}
+			payloads, _, _ := l.Served(start.File, start.Off)
+			for i, n := 0, rapid.IntRange(1, 2).Draw(rt, "attempts"); i < n; i++ {
+				c.Attempts = append(c.Attempts, AttemptSpec{Fault: drawFault(rt, []string{"fin", "eof", "cancel_in"}, len(payloads)+1, len(l.Expected(start, su)))})
+			}
+			flips := 0
+			for _, u := range c.H.Units {
+				if u.FlipChecksum {
+					flips++
+				}
+			}
+			rec.Case(flips > 0, c, "e2e/attempts-over-checksum-changes", fmt.Sprintf("e2e/flips=%d", flips))
+			journal("C16", "c04", c)
+			if _, err := checkC04(c); err != nil {
+				rec.Violation("c04", c, "", err)
+				rt.Fatalf("C16 violation: %v", err)
+			}
+			return
+		}
 		c := &CtlCase{Kind: rapid.SampledFrom([]string{"fde", "rotate", "query", "query", "query", "xid", "intvar", "rand"}).Draw(rt, "kind")}
 		c.Hdr = refenc.Header{Timestamp: u32(rt, "ts"), ServerID: u32(rt, "server_id"), LogPos: u32(rt, "log_pos"), Flags: uint16(rapid.IntRange(0, 65535).Draw(rt, "flags"))}
 		c.Maria = rapid.IntRange(0, 4).Draw(rt, "maria") == 0
